@@ -164,3 +164,21 @@ Proof.
   unfold auto; intros H. injection H as H.
   apply append_inj_r in H. apply (append_inj_r "d") in H. now apply dec_inj.
 Qed.
+
+Lemma NoDup_app_snoc {A} (l : list A) x : NoDup l -> ~ In x l -> NoDup (l ++ [x]).
+Proof.
+  induction l as [|h t IH]; simpl; intros Hnd Hx.
+  - constructor; [simpl; tauto | constructor].
+  - inversion Hnd as [|? ? Hh Ht]; subst. constructor.
+    + rewrite in_app_iff. simpl. intros [H|[H|[]]]; [tauto | subst; tauto].
+    + apply IH; tauto.
+Qed.
+
+Lemma NoDup_app' {A} (l1 l2 : list A) :
+  NoDup l1 -> NoDup l2 -> (forall x, In x l1 -> In x l2 -> False) -> NoDup (l1 ++ l2).
+Proof.
+  induction l1 as [|h t IH]; simpl; intros H1 H2 H; auto.
+  inversion H1 as [|? ? Hh Ht]; subst. constructor.
+  - rewrite in_app_iff. intros [Hc|Hc]; [tauto | apply (H h); auto].
+  - apply IH; auto. intros x Hx. apply H. now right.
+Qed.
